@@ -44,6 +44,7 @@ func (s *c19conn) who() (string, string) {
 }
 
 type c19conn struct {
+	app       string
 	user, db  string
 	mwOrder   []int
 	mwOffsets []int
@@ -64,12 +65,25 @@ type c19cfg struct {
 	Hook   bool
 }
 
+// c19lost: a callback whose context does not lead back to its connection (the remote address in it is not
+// the address the connection was accepted from).
+var c19lost atomic.Pointer[string]
+
+func c19connOf(ctx context.Context) *tr.Conn {
+	if cn := hs.ConnOf(ctx); cn != nil {
+		return cn
+	}
+	msg := fmt.Sprintf("the remote address in a callback's context is %v (%T): not the address of any accepted connection", wire.RemoteAddress(ctx), wire.RemoteAddress(ctx))
+	c19lost.CompareAndSwap(nil, &msg)
+	return tr.NewConn(&c19conn{})
+}
+
 func (ch c19) server(cfg c19cfg) *hs.Env {
 	var opts []wire.OptionFn
 	for i := 0; i < cfg.N; i++ {
 		i := i
 		opts = append(opts, wire.SessionMiddleware(func(ctx context.Context) (context.Context, error) {
-			conn := hs.ConnOf(ctx)
+			conn := c19connOf(ctx)
 			st := conn.User.(*c19conn)
 			st.mwOrder = append(st.mwOrder, i)
 			st.mwOffsets = append(st.mwOffsets, conn.WOff())
@@ -124,7 +138,7 @@ func (ch c19) server(cfg c19cfg) *hs.Env {
 	}
 	if cfg.Hook {
 		opts = append(opts, wire.TerminateConn(func(ctx context.Context) error {
-			st := hs.ConnOf(ctx).User.(*c19conn)
+			st := c19connOf(ctx).User.(*c19conn)
 			st.term.Add(1)
 			if st.hookGate != nil {
 				st.hookEntered <- struct{}{}
@@ -142,7 +156,7 @@ func (ch c19) server(cfg c19cfg) *hs.Env {
 	}
 	opts = append(opts, wire.GlobalParameters(wire.Parameters{"application_name": "verif", "search_path": "tenant_7, public", "tenant.region": "eu-west", "datestyle": "ISO, DMY", "crdb_version": "verif 1.0"}))
 	check := func(ctx context.Context, where string) {
-		st := hs.ConnOf(ctx).User.(*c19conn)
+		st := c19connOf(ctx).User.(*c19conn)
 		if ctx.Err() != nil {
 			st.problems = append(st.problems, where+": context already cancelled while the command is running")
 		}
@@ -152,23 +166,25 @@ func (ch c19) server(cfg c19cfg) *hs.Env {
 			}
 		}
 		user, db := st.who()
-		if cp := wire.ClientParameters(ctx); cp["user"] != user || cp["database"] != db || cp["options"] != "" || cp["application_name"] != "" || len(cp) != 4 {
-			st.problems = append(st.problems, fmt.Sprintf("%s: client parameters in the command context are %v, sent: options=\"\" user=%s application_name=\"\" database=%s", where, cp, user, db))
+		if cp := wire.ClientParameters(ctx); cp["user"] != user || cp["database"] != db || cp["options"] != "" || cp["application_name"] != st.app || len(cp) != 4 {
+			st.problems = append(st.problems, fmt.Sprintf("%s: client parameters in the command context are %v, sent: options=\"\" user=%s application_name=%q database=%s", where, cp, user, st.app, db))
 		}
 		if sp := wire.ServerParameters(ctx); sp["application_name"] != "verif" || sp["server_encoding"] != "UTF8" || sp["search_path"] != "tenant_7, public" || sp["tenant.region"] != "eu-west" || sp["datestyle"] != "ISO, DMY" || sp["crdb_version"] != "verif 1.0" {
 			st.problems = append(st.problems, where+": server parameters missing from the command context")
 		} else if sa := sp["session_authorization"]; sa != user {
 			st.problems = append(st.problems, fmt.Sprintf("%s: session_authorization in this connection's context is %q, the connection belongs to %q", where, sa, user))
 		}
-		if wire.RemoteAddress(ctx) == nil {
+		if ra := wire.RemoteAddress(ctx); ra == nil {
 			st.problems = append(st.problems, where+": remote address missing from the command context")
+		} else if cn := tr.FromAddr(ra); cn == nil || cn.User != any(st) {
+			st.problems = append(st.problems, fmt.Sprintf("%s: the remote address in the command context is %v, not the address the connection was accepted from", where, ra))
 		}
 		if wire.TypeMap(ctx) == nil {
 			st.problems = append(st.problems, where+": type map missing from the command context")
 		}
 	}
 	parse := func(ctx context.Context, query string) (wire.PreparedStatements, error) {
-		st := hs.ConnOf(ctx).User.(*c19conn)
+		st := c19connOf(ctx).User.(*c19conn)
 		st.parses++
 		st.ctxs = append(st.ctxs, ctx)
 		check(ctx, "parser entry")
@@ -283,8 +299,17 @@ func (ch c19) runConn(c *core.Ctx, env *hs.Env, cfg c19cfg, ending string, rng *
 		st.db = core.Pick(rng, []string{"db", strings.Repeat("d", 64), strings.Repeat("d", 63) + "ß" + strings.Repeat("b", 30)})
 		c.Count("connections_with_long_user_or_database_names", 1)
 	}
+	if rng.Intn(5) == 1 {
+		// a connection from a local TCP peer whose application name ends in an address (what
+		// PgBouncer's application_name_add_host appends): free text - the remote address of a connection is
+		// the peer it was accepted from
+		st.app = core.Pick(rng, []string{"reports - 203.0.113.7:4242", "psql - [2001:db8::1]:5432", "app - 127.0.0.1:1", "worker - 10.0.0.9:65535"})
+		tr.LoopbackAddrs.Store(true)
+		defer tr.LoopbackAddrs.Store(false)
+		c.Count("connections_announcing_an_address_in_their_application_name", 1)
+	}
 	user, db := st.who()
-	cl.C.Send(pg.Startup([][2]string{{"options", ""}, {"user", user}, {"application_name", ""}, {"database", db}}))
+	cl.C.Send(pg.Startup([][2]string{{"options", ""}, {"user", user}, {"application_name", st.app}, {"database", db}}))
 	cl.C.Quiesce()
 	authFails := cfg.Auth && rng.Intn(6) == 0
 	if cfg.Auth {
@@ -513,6 +538,10 @@ func (ch c19) runConn(c *core.Ctx, env *hs.Env, cfg c19cfg, ending string, rng *
 		return
 	}
 	c.Count("terminate_hook_runs", int64(wantTerm))
+	if p := c19lost.Swap(nil); p != nil {
+		viol("context", "the remote address in a callback's context is not the connection's", *p)
+		return
+	}
 	if len(st.problems) > 0 {
 		viol("context", st.problems[0], fmt.Sprint(st.problems))
 		return
